@@ -46,7 +46,7 @@ SHARD_TIMEOUT = {"quick": 900, "thorough": 7200}
 
 
 def shards(tier, seed):
-    n = 20 if tier == "quick" else 400
+    n = 20 if tier == "quick" else 900
     return [{"kind": "groups", "seed": seed, "shard": i, "n": n} for i in range(16)]
 
 
